@@ -172,6 +172,8 @@ def op_ckpt(scenario):
         return out
     log("built")
     out["restored"] = _full_state(solver) if rs else None
+    if rs:
+        log(f"restored {int(solver.iteration)}")
     out["config"] = _norm_config(solver.config)
     out["attrs"] = dict(checkpoint_frequency=int(getattr(solver, "checkpoint_frequency", -1)),
                         max_checkpoints=int(getattr(solver, "max_checkpoints", -1)),
